@@ -48,11 +48,18 @@ impl Kernel for Clock {
                     self.mono.set((self.mono.get() + step).min(LIMIT));
                     self.real.set((self.real.get() + step).min(LIMIT));
                 }
-                let v = if a[0] == 0 { self.real.get() } else { self.mono.get() };
-                if a[0] == 0 {
-                    self.last_real_read.set(v);
-                } else {
-                    self.last_mono_read.set(v);
+                // the clocks are different clocks: CLOCK_REALTIME (0), CLOCK_MONOTONIC (1); every other
+                // id (BOOTTIME counts suspended time, the COARSE/RAW variants lag or drift) shows a
+                // value of its own, some 1000 s away from the monotonic clock
+                let v = match a[0] {
+                    0 => self.real.get(),
+                    1 => self.mono.get(),
+                    id => self.mono.get() + 1_000 * NS + id as i128,
+                };
+                match a[0] {
+                    0 => self.last_real_read.set(v),
+                    1 => self.last_mono_read.set(v),
+                    _ => {}
                 }
                 unsafe {
                     *(a[1] as *mut Ts) = Ts { sec: v.div_euclid(NS) as i64, nsec: v.rem_euclid(NS) as i64 };
